@@ -38,11 +38,12 @@ Qed.
 (* scanning a literal that is present at the current position admits the advanced state *)
 Theorem scan_literal_complete cf g inp t k s p :
   next_sym s = Some (ST (TLit p)) ->
+  k mod 8 = 0 ->
   is_prefix (lit_units p) (skipn (k / 8) (units inp)) = true ->
   k + 8 * List.length (lit_units p) < List.length t ->
   exists s', In s' (col (step cf g inp t k s) (k + 8 * List.length (lit_units p))) /\
              st_eqb (adv s [Leaf (slice_leaf inp p (lit_units p))]) s' = true.
-Proof. intros Hn Hp Hk. unfold step. rewrite Hn, Hp. apply add_present. exact Hk. Qed.
+Proof. intros Hn Ha Hp Hk. unfold step. rewrite Hn, Hp, Ha. apply add_present. exact Hk. Qed.
 
 (* the recorded departures, on the faithful model *)
 Definition g_empty_regex : crules := [("<start>", (true, [[ST (TRe 0); ST (TLit (PStr [98%N]))]]))].
